@@ -5,6 +5,7 @@ import (
 	"encoding/base64"
 	"encoding/json"
 	"fmt"
+	"hash/crc32"
 	"math/rand"
 	"sort"
 	"strconv"
@@ -206,6 +207,31 @@ func (w *tlogWorld) checkRecText(c *core.Case) ([]core.Violation, bool) {
 	if err != nil || id != in.ID || !bytes.Equal(t2, text) || !bytes.Equal(r2, rest) {
 		return viol(c, "rectext:roundtrip", "ParseRecord(FormatRecord(%d,%q)+%q) = %d,%q,%q,%v", in.ID, text, rest, id, t2, r2, err), true
 	}
+	// records of unusual size: the same text repeated to just below and above one million bytes, and this record followed
+	// by a remainder of that size (a record has no documented size limit; the encoding is the same at every size)
+	// (on one case in 256, chosen by a checksum of the text, so that a replay of the case does the same)
+	if crc32.ChecksumIEEE(text)%256 == 0 {
+		for _, total := range []int{999900, 1000100, 3 << 20} {
+			unit := append(append([]byte("long record: "), bytes.TrimRight(text, "\n")...), '\n')
+			if bytes.Contains(unit[:len(unit)-1], []byte("\n")) {
+				unit = []byte("a line of a long record\n")
+			}
+			big := bytes.Repeat(unit, total/len(unit)+1)
+			bm, err := tlog.FormatRecord(in.ID, big)
+			if err != nil {
+				return viol(c, "rectext:big", "FormatRecord rejects a record text of %d lines %q: %v", total/len(unit)+1, unit, err), true
+			}
+			id, t3, r3, err := tlog.ParseRecord(append(append([]byte(nil), bm...), rest...))
+			if err != nil || id != in.ID || !bytes.Equal(t3, big) || !bytes.Equal(r3, rest) {
+				return viol(c, "rectext:big", "a record of %d bytes (the line %q repeated) does not survive FormatRecord / ParseRecord: id %d, %d bytes of text, %d bytes of remainder, %v", len(big), unit, id, len(t3), len(r3), err), true
+			}
+			tail := bytes.Repeat([]byte("x"), total)
+			id, t3, r3, err = tlog.ParseRecord(append(append([]byte(nil), msg...), tail...))
+			if err != nil || id != in.ID || !bytes.Equal(t3, text) || !bytes.Equal(r3, tail) {
+				return viol(c, "rectext:big", "ParseRecord of record %d followed by a remainder of %d bytes: id %d, text %q, %d bytes of remainder, %v", in.ID, total, id, t3, len(r3), err), true
+			}
+		}
+	}
 	return nil, true
 }
 
@@ -256,6 +282,16 @@ func (w *tlogWorld) checkTreeText(c *core.Case) ([]core.Violation, bool) {
 		}
 		if back, err := tlog.ParseTree(tlog.FormatTree(tree)); err != nil || back != tree {
 			return viol(c, "treetext:roundtrip", "ParseTree(FormatTree(%v)) = %v, %v", tree, back, err), true
+		}
+		// history: the text of one head is kept while another head is formatted; it still is the text of the first
+		kept := tlog.FormatTree(tree)
+		other := tlog.Tree{N: n + 1, Hash: tlog.Hash(refmerkle.Junk(int(n%1000) + 3))}
+		otherText := tlog.FormatTree(other)
+		if string(kept) != want || string(otherText) == want {
+			return viol(c, "treetext:kept", "the text of tree head %v reads %q after another head was formatted", tree, kept), true
+		}
+		if back, err := tlog.ParseTree(kept); err != nil || back != tree {
+			return viol(c, "treetext:kept", "the text of tree head %v, kept while another head was formatted, parses as %v, %v", tree, back, err), true
 		}
 	}
 	return nil, true
